@@ -145,7 +145,7 @@ def registry():
     R.define('buffer_ok(s)', 'geometry(s) and s.used_ks <= ks_size(s)')
     NULLS = 'null(ctr_state) or null(in) or null(out)'
     R.define('consumed()', 'u64(old(data_len) - data_len)')     # bytes processed so far (data_len only decreases)
-    R.fn('CTR_encrypt', regions=ENC_SHAPE, configs=cfgs_enc, cost=200,
+    R.fn('CTR_encrypt', regions=ENC_SHAPE, configs=cfgs_enc, cost=260,
          quick=['bl16.inplace', 'null_in', 'null_out', 'null_state'],
          modifies=['out', 'ctr_state.counter_blocks', 'ctr_state.keystream', 'ctr_state.used_ks', 'ctr_state.length_lo', 'ctr_state.length_hi'],
          requires={'valid': 'null(ctr_state) or buffer_ok(ctr_state)', 'within_limit': 'null(ctr_state) or within_limit(ctr_state)'},
